@@ -151,9 +151,9 @@ Qed.
 Lemma union_result_snoc_ok vals w : union_result (vals ++ [UOk w]) = AOk w.
 Proof.
   unfold union_result. rewrite filter_app. simpl.
-  destruct (filter uval_ok vals ++ [UOk w]) eqn:E.
-  - destruct (filter uval_ok vals); discriminate.
-  - now rewrite last_last.
+  destruct (filter uval_ok vals) as [|y a]; [reflexivity|].
+  change ((y :: a) ++ [UOk w]) with (y :: (a ++ [UOk w])). cbv iota.
+  destruct (a ++ [UOk w]) eqn:E; [destruct a; discriminate|]. rewrite <- E. now rewrite last_last.
 Qed.
 
 (* without an orig_val there is no fallback: the Union returns what its first accepting member returns *)
@@ -173,7 +173,7 @@ Lemma adapt_union_none v rs :
   match first_ok (sort_members (is_str v) rs) with Some w => AOk w | None => AErr ErrValue end.
 Proof. unfold adapt_union. now apply union_loop_none. Qed.
 
-(* whatever orig_val is: an accepted value comes from a member, or is orig_val, or is the exception object *)
+(* whatever orig_val is: an accepted value comes from a member, or is orig_val *)
 Lemma union_loop_In orig v rs : forall vals u,
   In u (union_loop orig v rs vals) ->
   In u vals \/ u = UExc \/ (exists t w, u = UOk w /\ In (t, AOk w) rs) \/ (exists o, orig = Some o /\ u = UOk (VStr o)).
@@ -204,24 +204,25 @@ Proof.
   right. apply IH. discriminate.
 Qed.
 
-Lemma union_result_In vals w : union_result vals = AOk w -> In (UOk w) vals \/ w = exc_val.
+Lemma union_result_In vals w : union_result vals = AOk w -> In (UOk w) vals.
 Proof.
-  unfold union_result. destruct (filter uval_ok vals) eqn:E; [discriminate|].
-  assert (N : vals <> []) by (intro; subst; discriminate).
-  pose proof (last_In vals UExc N) as L.
-  destruct (last vals UExc) as [x|]; intro H; inversion H; subst; auto.
+  unfold union_result. destruct (filter uval_ok vals) as [|u oks] eqn:E; [discriminate|].
+  assert (N : u :: oks <> []) by discriminate.
+  pose proof (last_In (u :: oks) UExc N) as L.
+  destruct (last (u :: oks) UExc) as [x|]; intro H; inversion H; subst.
+  rewrite <- E in L. apply filter_In in L. tauto.
 Qed.
 
 Lemma adapt_union_from orig v rs w :
   adapt_union orig v rs = AOk w ->
-  (exists t, In (t, AOk w) rs) \/ orig = Some match w with VStr s => s | _ => [] end /\ is_str w = true \/ w = exc_val.
+  (exists t, In (t, AOk w) rs) \/ orig = Some match w with VStr s => s | _ => [] end /\ is_str w = true.
 Proof.
-  unfold adapt_union. intro H. apply union_result_In in H. destruct H as [H|H]; auto.
+  unfold adapt_union. intro H. apply union_result_In in H.
   apply union_loop_In in H. destruct H as [[]|[H|[H|H]]].
   - discriminate.
   - destruct H as (t & w' & E & I). inversion E; subst. left. exists t.
     unfold sort_members in I. now apply stable_sort_In in I.
-  - destruct H as (o & E1 & E2). inversion E2; subst. right; left. auto.
+  - destruct H as (o & E1 & E2). inversion E2; subst. right. auto.
 Qed.
 
 (* ---- a str result is the str input (or orig_val) ------------------------------------------------ *)
@@ -293,7 +294,7 @@ Proof.
   destruct (lit_kinds jload ls v) as [|[t r] [|p rest]] eqn:E.
   - discriminate.
   - intro H. eapply K; [now left|exact H].
-  - intro H. unfold adapt_union in H. apply union_result_In in H. destruct H as [H|H]; [|discriminate].
+  - intro H. unfold adapt_union in H. apply union_result_In in H.
     (* no member is str, so no fallback entry: an accepted str would come from a member *)
     assert (G : forall rs vals u, (forall t0 r0, In (t0, r0) rs -> is_str_ty t0 = false) ->
                 In u (union_loop orig v rs vals) -> In u vals \/ u = UExc \/ exists t0 w, u = UOk w /\ In (t0, AOk w) rs).
@@ -344,11 +345,10 @@ Proof.
     + destruct (mem_str s0 ms); discriminate.
     + destruct (str_eqb cls c); [|discriminate]. inversion HA.
   - (* Union *)
-    apply adapt_union_from in HA. destruct HA as [(t & I)|[(E & _)|E]].
+    apply adapt_union_from in HA. destruct HA as [(t & I)|(E & _)].
     + apply in_map_iff in I. destruct I as (t1 & E1 & I1). inversion E1; subst.
       rewrite Forall_forall in H. eapply H; eauto.
     + now right.
-    + discriminate.
   - destruct (seq_items v); [|discriminate]. destruct (mapA _ l); discriminate.
   - destruct v; try discriminate. destruct (if b then _ else _); [|discriminate]. destruct (mapD _ l); discriminate.
   - destruct (seq_items v); [|discriminate]. destruct (negb _); [discriminate|]. destruct (zipA _ l); discriminate.
